@@ -973,6 +973,24 @@ func init() {
 					jobs = append(jobs, job{in, []string{"whitespace-read", "perop-single"}})
 				}
 			}
+			// (i) a single transient sensor fault under curves that read the sensor themselves (PID alone, function of a PID,
+			//     PID in a nested function), for the direct and the PID control algorithm: the fan must be handed back,
+			//     or the request must stay where the last good cycle put it
+			for _, cv := range faultsCurves() {
+				if !faultsCurveHasPid(cv) {
+					continue
+				}
+				for _, alg := range []string{"direct", "pid"} {
+					for _, sk := range []string{"hwmon", "file", "cmd"} {
+						for _, k := range []int{0, 1, 3} {
+							fan := []string{"hwmon", "file", "cmd"}[rng.Intn(3)]
+							in := mkIn(comboT{fan, sk, cv}, mkPlan([]faultsSpec{{"sensor", []string{"error", "garbage"}[rng.Intn(2)], 0}}, []int{k}))
+							in.Alg = alg
+							jobs = append(jobs, job{in, []string{"transient-curve-fault"}})
+						}
+					}
+				}
+			}
 			// (e) timeouts (2 s per command): few, on command components only
 			var tcombos []comboT
 			for _, cb := range combos {
